@@ -38,7 +38,9 @@ def cli_dcpr_complete_witness(c, verdict):
     return "F-CLI-1 DC-PR with certificate: the witness line is a complete extension containing the argument that is not preferred (e.g. `crustabri_iccma23 -p DC-PR -f f1.af -a 3` on `p af 3 / 1 2 / 2 1` prints `YES / w 3`; see FINDINGS-cli.md)"
 
 
-KNOWN = [cli_dcpr_complete_witness]
+# not a finding: property C04 states that for DC-PR a complete extension containing the argument is a
+# sufficient witness; the driver accepts it (the matcher is kept for reference but not registered)
+KNOWN = []
 
 
 def match_known(c, verdict):
